@@ -173,6 +173,14 @@ class SizedIterable(IterableOnly):
         return self.c.n
 
 
+class SizedCollection(SizedIterable):
+    """the same with a membership test: a collections.abc.Collection (like a
+    BTrees set or a keys view over a cursor)"""
+
+    def __contains__(self, x):
+        return False
+
+
 def gen(c, mk):
     while True:
         r = c.produce(mk)
@@ -248,6 +256,7 @@ def gen_case(seed, tier):
                      'sized', 'rewind'])
     unbounded = batched and r.random() < 0.3 and kind not in ('sized',
                                                               'rewind')
+    case['collection'] = core.stream(seed, 'c12coll').random() < 0.5
     if batched and r.random() < 0.06:
         case['items'] = 'sparse'
         if r.random() < 0.8:
@@ -422,7 +431,8 @@ def run_case(case):
     elif kind == 'iterable':
         seq = IterableOnly(c, mk)
     elif kind == 'sized':
-        seq = SizedIterable(c, mk)
+        seq = (SizedCollection if case.get('collection')
+               else SizedIterable)(c, mk)
     else:
         seq = LazySeq(c, mk)
     ns = {'seq': seq, 'seq2': seq, 'rv0': case.get('revexpr')}
